@@ -104,6 +104,7 @@ type recBackoff struct {
 	nexts  int
 	resets int
 	log    []string
+	dur    time.Duration // 0 = rtBackoff
 }
 
 func (b *recBackoff) NextBackOff() time.Duration {
@@ -111,6 +112,9 @@ func (b *recBackoff) NextBackOff() time.Duration {
 	b.nexts++
 	b.log = append(b.log, "next")
 	b.mu.Unlock()
+	if b.dur != 0 {
+		return b.dur
+	}
 	return rtBackoff
 }
 
@@ -124,9 +128,17 @@ func (b *recBackoff) Reset() {
 var _ cbackoff.BackOff = (*recBackoff)(nil)
 
 func newRtWorld(c *mon.Case, state, withCmp, retry bool, behave rtBehaviour) *rtWorld {
+	return newRtWorldBackoff(c, state, withCmp, retry, behave, 0)
+}
+
+// newRtWorldBackoff: a non-zero longBackoff configures a recording backoff of that (practically infinite) interval.
+func newRtWorldBackoff(c *mon.Case, state, withCmp, retry bool, behave rtBehaviour, longBackoff time.Duration) *rtWorld {
 	w := &rtWorld{c: c, withCmp: withCmp, retry: retry, behave: behave}
 	var opts []routine.Option
-	if retry {
+	if retry && longBackoff != 0 {
+		w.bo = &recBackoff{c: c, dur: longBackoff}
+		opts = append(opts, routine.WithBackoff(w.bo))
+	} else if retry {
 		// three documented ways to configure retry; the recording backoff is only available with WithBackoff
 		switch retryConfigKind(c) {
 		case 1:
@@ -894,6 +906,7 @@ func runC14(w *mon.Worker) {
 	for i := 0; i < w.Share(w.Scale(96, 3000)); i++ {
 		state := i%2 == 1
 		w.Case("stale-timer", map[string]any{"state": state}, func(c *mon.Case) { c14TimerGateCase(c, state) })
+		w.Case("restart-in-backoff", map[string]any{"state": state}, func(c *mon.Case) { c14RestartInBackoffCase(c, state) })
 	}
 }
 
@@ -1485,6 +1498,87 @@ func c14TimerGateCase(c *mon.Case, state bool) {
 	if len(insts) != want {
 		c.Violate("machine", "routine-rerun-by-stale-retry-timer", "instance #0 failed and armed a retry timer; its callback was held before the lock while %s ran and the next run returned (%s); after releasing the callback %d instances have entered in total, the documented machine gives %d (a stale timer re-ran a routine it did not belong to)",
 			what, map[int]string{0: "success", 1: "an error, retried once"}[second], len(insts), want)
+	}
+	w.clearContext("d")
+}
+
+// c14RestartInBackoffCase: the retry interval is an hour, so within the case the timer never fires. A failed
+// instance must be run again by RestartRoutine and by SetContext(restart=true) (same or new context) without
+// waiting for the backoff, and by nothing else (SetContext(restart=false) with the same context, WaitExited).
+func c14RestartInBackoffCase(c *mon.Case, state bool) {
+	r := c.Rng
+	variant := r.IntN(5)
+	errKind := r.IntN(3)
+	behave := func(n, gen int) (bool, int, error, bool) {
+		if n == 0 {
+			switch errKind {
+			case 1:
+				return false, 0, context.Canceled, false // an error like any other while the instance's context is live
+			case 2:
+				return false, 0, fmt.Errorf("error-inst-0: %w", context.Canceled), false
+			}
+			return false, 0, fmt.Errorf("error-inst-%d", n), false
+		}
+		return false, 0, nil, false
+	}
+	w := newRtWorldBackoff(c, state, false, true, behave, time.Hour)
+	cx := &rtCtxs{}
+	defer cx.cancelAll()
+	ctx, tag := cx.fresh()
+	w.setContext("d", ctx, false, fmt.Sprint("new#", tag))
+	w.setGen("d", 1)
+	if !mon.Quiesce(5 * time.Second) {
+		c.Inconclusive("no quiescence after the first failure")
+		return
+	}
+	if n := len(w.instances()); n != 1 {
+		c.Violate("machine", "routine-retried-before-backoff", "%d instances entered although the first failed and the retry interval is one hour", n)
+		return
+	}
+	werr := w.waitExited(context.Background(), r.IntN(2) == 0, nil)
+	if in := w.instances()[0]; werr == nil || werr.Error() != in.err.Error() {
+		c.Violate("machine", "waitexited-wrong-result", "WaitExited returned %v, the current instance #0 exited with %v (retry pending)", werr, in.err)
+	}
+	var what string
+	want := 2
+	switch variant {
+	case 0:
+		what = "RestartRoutine"
+		w.restart("d")
+	case 1:
+		what = "SetContext(same, restart=true)"
+		w.setContext("d", ctx, true, fmt.Sprint("same#", tag))
+	case 2:
+		what = "SetContext(new, restart=true)"
+		ctx2, tag2 := cx.fresh()
+		w.setContext("d", ctx2, true, fmt.Sprint("new#", tag2))
+	case 3:
+		what = "SetContext(same, restart=false)"
+		w.setContext("d", ctx, false, fmt.Sprint("same#", tag))
+		want = 1
+	default:
+		what = "WaitExited only"
+		want = 1
+	}
+	c.Count("restart_in_backoff_templates", 1)
+	c.NonTrivial()
+	c.Mix(uint64(variant)<<4 | uint64(errKind))
+	if !mon.Quiesce(5 * time.Second) {
+		c.Inconclusive("no quiescence after the restart request")
+		return
+	}
+	insts := w.instances()
+	if len(insts) != want {
+		sig := "failed-routine-not-rerun-by-restart-request"
+		if len(insts) > want {
+			sig = "routine-rerun-without-cause"
+		}
+		c.Violate("machine", sig, "instance #0 failed with %v (retry interval one hour, so no timer fires within the case); after %s %d instances have entered in total, the documented machine gives %d", insts[0].err, what, len(insts), want)
+	}
+	if want == 2 && len(insts) == 2 {
+		if werr := w.waitExited(context.Background(), false, nil); werr != nil {
+			c.Violate("machine", "waitexited-wrong-result", "WaitExited returned %v, the current instance #1 returned nil", werr)
+		}
 	}
 	w.clearContext("d")
 }
